@@ -35,6 +35,22 @@ def WellNumbered {α} (amap : List (Nat × α)) : Prop :=
 
 end Primaite.Mask
 
+/-! ### a mask computed with ANY state threaded through the loop (a cache, a counter, something kept from an earlier step)
+
+`valid s a = (verdict, s')`: the verdict of entry `a` may look at a state `s` that earlier entries (or earlier masks: start the
+loop from the state the last mask left) have written.  NOT what the code does; modelled to state what such a computation must
+satisfy to be the mask (Props/C11Memo.lean, `C11_stateful_mask_eq_of_transparent`). -/
+namespace Primaite.Mask
+
+def putBitSt {α σ} (valid : σ → α → Bool × σ) (st : Option (List Bool) × σ) (e : Nat × α) : Option (List Bool) × σ :=
+  let r := valid st.2 e.2
+  (putBit (fun _ => r.1) st.1 e, r.2)
+
+def actionMaskSt {α σ} (valid : σ → α → Bool × σ) (s0 : σ) (amap : List (Nat × α)) : Option (List Bool) × σ :=
+  amap.foldl (putBitSt valid) (some (List.replicate amap.length true), s0)
+
+end Primaite.Mask
+
 /-! ### a mask with a VERDICT MEMO (what a per-mask cache of guard outcomes computes)
 
 `check_valid(request, context, verdicts)` with `verdicts` keyed by the edge of the request tree (`id(request_type)`), one dict
